@@ -32,6 +32,55 @@ def run(ctx):
     plug_names(ctx)
     targets_world(ctx)
     c18.check_cli_resolver(ctx_rule(ctx, "R19.4"))
+    output_files(ctx)
+    key_value_flags(ctx)
+
+
+def output_files(ctx):
+    """R19.2 `truncating-sink`: the output file holds exactly the bytes written: it is produced by a truncating primitive
+    (`fs::write`, `File::create`) — an `OpenOptions` chain must ask for `truncate(true)` (or `create_new`), otherwise the tail
+    of a longer previous file survives behind the new component."""
+    db, prov = ctx.db, ctx.prov
+    n = 0
+    for f in db.fns.values():
+        if f.crate not in ("wac_cli", "wac.bin") or f.from_expansion:
+            continue
+        for t in f.calls():
+            p = t.path or ""
+            if p.endswith("fs::OpenOptions::open"):
+                n += 1
+                sl = prov.slice(f, t.args[0], follow_mut=True)
+                trunc = [c for _, c in sl.calls if (c.path or "").endswith(("OpenOptions::truncate", "OpenOptions::create_new"))]
+                ok = any(c.args[1].const_value() == ("bool", True) for c in trunc)
+                append = any((c.path or "").endswith("OpenOptions::append") for _, c in sl.calls)
+                ctx.ob("R19.2", "truncating-sink|%s@%d" % (f.id.split("::")[-3] if f.id.count("::") > 2 else f.id, ordinal(f, t)), ok and not append,
+                       "the file is opened with truncate(true)/create_new(true)" if ok and not append else
+                       "an output file is opened for writing without truncation: when the path already holds a longer file, the result is the new bytes followed by the old tail (not the bytes sent to stdout)",
+                       site="%s in %s" % (t.span, f.id))
+            elif p in ("std::fs::write", "std::fs::File::create"):
+                n += 1
+                ctx.ob("R19.2", "truncating-sink|%s@%d" % (f.id.split("::")[-3] if f.id.count("::") > 2 else f.id, ordinal(f, t)), True, "written with %s (truncates)" % p, site=t.span)
+    ctx.ob("R19.2", "sink-count", n >= 2, "file sinks in the CLI: %d" % n, nontrivial=False)
+
+
+def key_value_flags(ctx):
+    """R19.4 `key-value-split`: `--dep PKG=PATH` style values are split at the FIRST `=` (a package name cannot contain `=`,
+    a path can): forward split primitives only."""
+    db = ctx.db
+    n = 0
+    for f in db.fns.values():
+        if f.crate not in ("wac_cli", "wac.bin") or f.from_expansion or not f.id.endswith(("::parse", "FromStr>::from_str")):
+            continue
+        for t in f.calls():
+            p = t.path or ""
+            nm = p.rsplit("::", 1)[-1]
+            if "str" in p and nm in ("split_once", "rsplit_once", "split", "rsplit", "splitn", "rsplitn", "find", "rfind") and t.args[1].const_value() == ("char", ord("=")):
+                n += 1
+                ok = not nm.startswith("r")
+                ctx.ob("R19.4", "key-value-split|" + f.id.split("::", 1)[1], ok, "KEY=VALUE is split at the first `=`" if ok else
+                       "KEY=VALUE is split at the LAST `=` (%s): a path containing `=` moves into the key, the override is registered under a name no document can reference" % nm,
+                       site="%s in %s" % (t.span, f.id))
+    ctx.ob("R19.4", "key-value-sites", n >= 2, "KEY=VALUE parsers: %d" % n, nontrivial=False)
 
 
 class ctx_rule:
